@@ -7,7 +7,8 @@ import Autog.Lemmas.BreakMergeChains
     * Ortho: the point list the model builds for ANY node chain consists solely of horizontal and vertical segments —
       inside each 4-point group and across consecutive groups (the end point of one group and the start point of the
       next sit on the same node centre) — for all coordinates, widths, heights and layer heights.
-    * Straight: exactly two points. Polyline: `|ns|` points for a chain `ns`, one bend per inner node, at that node's centre.
+    * Straight: exactly two points. Polyline: `|ns|` points for a chain `ns`, one bend per inner node, at that helper node's
+      centre x and at mid-height of its band (`C06_polyline_bends`, `C06_polyline_point_count`).
     PARTIAL: that the chain `ns` produced by `mergeLongEdges` lists one helper node per intermediate band, and that bends
     stay outside node rectangles (C04 + C03), is decided per run by the predicates; splines by predicate only. -/
 
@@ -59,6 +60,70 @@ theorem C06_ortho_axis_parallel (g : G) (ls layerh : Rat) : ∀ (ns : List Nat),
 theorem C06_straight_two_points (g : G) (a b : Nat) :
     straight g a b = [((g.node a).x + (g.node a).w / 2, (g.node a).y + (g.node a).h),
                       ((g.node b).x + (g.node b).w / 2, (g.node b).y)] := rfl
+
+/-! ### Polyline -/
+
+theorem mapM_length {α β} (f : α → M β) : ∀ (l : List α) (r : List β), l.mapM f = .ok r → r.length = l.length
+  | [], r, h => by simp only [List.mapM_nil, pure, Except.pure, Except.ok.injEq] at h; subst h; rfl
+  | a :: l, r, h => by
+    simp only [List.mapM_cons, bind, Except.bind] at h
+    cases ha : f a with
+    | error e => rw [ha] at h; cases h
+    | ok b =>
+      rw [ha] at h
+      simp only at h
+      cases hl : l.mapM f with
+      | error e => rw [hl] at h; cases h
+      | ok bs =>
+        rw [hl] at h
+        simp only [pure, Except.pure, Except.ok.injEq] at h
+        subst h
+        simp [mapM_length f l bs hl]
+
+theorem mapM_mem {α β} (f : α → M β) : ∀ (l : List α) (r : List β), l.mapM f = .ok r → ∀ b ∈ r, ∃ a ∈ l, f a = .ok b
+  | [], r, h, b, hb => by simp only [List.mapM_nil, pure, Except.pure, Except.ok.injEq] at h; subst h; cases hb
+  | a :: l, r, h, b, hb => by
+    simp only [List.mapM_cons, bind, Except.bind] at h
+    cases ha : f a with
+    | error e => rw [ha] at h; cases h
+    | ok b0 =>
+      rw [ha] at h
+      simp only at h
+      cases hl : l.mapM f with
+      | error e => rw [hl] at h; cases h
+      | ok bs =>
+        rw [hl] at h
+        simp only [pure, Except.pure, Except.ok.injEq] at h
+        subst h
+        rcases List.mem_cons.1 hb with rfl | hb
+        · exact ⟨a, List.mem_cons_self .., ha⟩
+        · obtain ⟨a', ha', hf⟩ := mapM_mem f l bs hl b hb
+          exact ⟨a', List.mem_cons_of_mem _ ha', hf⟩
+
+/-- Polyline: the bends of a chain `ns` — one per INNER node of the chain, in order, each at the centre x of its (helper) node and
+    at mid-height of that node's band; a bend on a real node is an error of the model (the code panics) -/
+theorem C06_polyline_bends (g : G) (ns : List Nat) (mids : List Pt) (h : (ns.tail.dropLast).mapM (nonTerminalPoint g) = .ok mids) :
+    mids.length = ns.length - 2 ∧
+    ∀ p ∈ mids, ∃ n ∈ ns.tail.dropLast, (g.node n).virt = true ∧
+      p = ((g.node n).x + (g.node n).w / 2, (g.node n).y + layerH g (g.node n).layer / 2) := by
+  refine ⟨by rw [mapM_length _ _ _ h]; simp; omega, fun p hp => ?_⟩
+  obtain ⟨n, hn, hf⟩ := mapM_mem _ _ _ h p hp
+  refine ⟨n, hn, ?_⟩
+  unfold nonTerminalPoint at hf
+  simp only [bind, Except.bind, pure, Except.pure] at hf
+  cases hv : (g.node n).virt with
+  | false => simp [hv, throw, throwThe, MonadExceptOf.throw] at hf
+  | true =>
+    simp only [hv, Bool.not_true, Bool.false_eq_true, if_false, Except.ok.injEq] at hf
+    exact ⟨rfl, hf.symm⟩
+
+/-- … so a polyline route of a chain with k inner nodes has exactly k + 2 points -/
+theorem C06_polyline_point_count (g : G) (ns : List Nat) (mids : List Pt) (hlen : 2 ≤ ns.length)
+    (h : (ns.tail.dropLast).mapM (nonTerminalPoint g) = .ok mids) :
+    ([startPoint g ns.head!] ++ mids ++ [endPoint g ns.getLast!]).length = ns.length := by
+  have := (C06_polyline_bends g ns mids h).1
+  simp only [List.length_append, List.length_cons, List.length_nil]
+  omega
 
 /-- break/merge: the route of a merged edge is its chain (lemma library) -/
 theorem C06_chain_last_real : type_of% @BreakMergeChains.Linked.last_real := @BreakMergeChains.Linked.last_real
